@@ -455,6 +455,7 @@ def check(rep):
                 '(thorough) for max in {1,2,3}; COSIM: 2..4 threads x ops {open, close, broker close} with channel_max 1..4 under random '
                 'schedules. distinct = distinct cases; non-trivial = the registry has a closed or wrapped-around id / the sequence reuses an id / '
                 'the schedule pre-empted inside channel()')
+    rep.rule += '; SEQ-B also has a with-block whose body raises; deterministic histories: close on a stale object whose number was re-used, Channel.Open timing out; COSIM: channel() finishes within 1.5 virtual seconds'
     rep.assumptions = [
         'lazy channels (channel(lazy=True)) are outside the op alphabet: their id is deliberately reusable while they are CLOSED (pinned by unit tests)',
         'the atomicity of allocate+register+open rests on the connection lock (skeleton obligation skel_Connection_channel)',
